@@ -114,6 +114,14 @@ def run(sc, workdir):
         for p in p_info.parameters.call_parameters:
             if p.type == "orientation":
                 pars[p.name] = p_pars[p.name] = rng.choice([0.0, 30.0, 75.0])
+        # orientation jitter on P (turns the particle, leaves its sizes alone)
+        if rng.random() < 0.5:
+            for p in p_info.parameters.call_parameters:
+                if p.type == "orientation" and p.name in ("theta", "phi") and rng.random() < 0.7:
+                    d = {p.name + "_pd": rng.choice([10.0, 25.0]), p.name + "_pd_n": rng.choice([3, 4]),
+                         p.name + "_pd_type": rng.choice(["gaussian", "rectangle"])}
+                    pars.update(d)
+                    p_pars.update(d)
         # magnetic P (P's magnetic triples and the spin state travel at the end of the P@S vector)
         m0 = [p.name for p in p_info.parameters.call_parameters if p.name.endswith("_M0")]
         if m0 and rng.random() < 0.6:
@@ -125,19 +133,26 @@ def run(sc, workdir):
                 mag[nm[:-3] + "_mphi"] = rng.choice([10.0, 80.0])
             pars.update(mag)
             p_pars.update(mag)
-    cutoff = 0.0
+    jittered = any(k in p_pars for k in ("theta_pd", "phi_pd", "psi_pd"))
+    # a cutoff removes low-weight mesh points (the weights then no longer sum to one); not combined with jitter,
+    # for which the clause below needs the full product mesh
+    cutoff = rng.choice([0.0, 0.0, 1e-3, 1e-2]) if (not jittered and any(k.endswith("_pd") for k in p_pars)) else 0.0
     ev = {"tid": sc["tid"], "ev": "PS", "P": p_info.id, "S": s_info.id, "dim": dim,
           "ptab": tab(p_info), "stab": tab(s_info), "haveFq": bool(p_info.have_Fq), "nmodes": nmodes,
           "names": [p.id for p in ps_info.parameters.call_parameters],
           "scale": fstr(pars["scale"]), "background": fstr(pars["background"]), "vf": fstr(vf),
           "beta": beta, "ermode": ermode, "userReff": fstr(user_reff), "pars": pars,
           "p_pars": {k: v for k, v in p_pars.items()},
-          "refused": False, "error": ""}
+          "refused": False, "error": "", "cutoff": fstr(cutoff), "jittered": bool(jittered)}
     # ---- P alone
     fq = dict(p_pars, scale=1.0, background=0.0, radius_effective_mode=ermode)
     F1, F2, reff, vshell, ratio = call_Fq(pk, fq, cutoff=cutoff)
     ev["Pout"] = {"F1": fvec(F1) if F1 is not None else fvec(np.zeros(len(F2))), "F2": fvec(F2),
                   "reff": fstr(reff), "vshell": fstr(vshell), "ratio": fstr(ratio)}
+    # ---- P alone without the orientation jitter (same sizes, same size dispersity)
+    nojit = {k: v for k, v in fq.items() if not k.startswith(("theta_pd", "phi_pd", "psi_pd"))}
+    _, _, reff0, vshell0, ratio0 = call_Fq(pk, nojit, cutoff=cutoff)
+    ev["Pnojit"] = {"reff": fstr(reff0), "vshell": fstr(vshell0), "ratio": fstr(ratio0)}
     # ---- S alone, at the inputs the documented formula names
     s_reff = user_reff if ermode == 0 else float(reff)
     s_vf = vf * float(ratio)
